@@ -34,3 +34,36 @@ pub fn replay_repeated<C>(case: &C, obs: &mut Obs, check: impl Fn(&C, &mut Obs) 
     }
     check(case, obs)
 }
+
+/// Signatures of the open known findings of a property (only used to decide WHICH of several
+/// violations met in one history is reported: an unlisted one first).
+pub fn known_open(prop: &str) -> &'static [String] {
+    use std::sync::OnceLock;
+    static K: OnceLock<Vec<(String, String)>> = OnceLock::new();
+    static C05: OnceLock<Vec<String>> = OnceLock::new();
+    static C06: OnceLock<Vec<String>> = OnceLock::new();
+    static C07: OnceLock<Vec<String>> = OnceLock::new();
+    let all = K.get_or_init(|| {
+        let mut v = vec![];
+        if let Ok(text) = std::fs::read_to_string(format!("{}/known_findings.json", vcore::VERIF_ROOT)) {
+            if let Ok(doc) = serde_json::from_str::<serde_json::Value>(&text) {
+                for f in doc["findings"].as_array().cloned().unwrap_or_default() {
+                    if f["status"].as_str().unwrap_or("open") == "open" {
+                        v.push((f["property"].as_str().unwrap_or("").to_string(), f["signature"].as_str().unwrap_or("").to_string()));
+                    }
+                }
+            }
+        }
+        v
+    });
+    let cell = match prop {
+        "C05" => &C05,
+        "C06" => &C06,
+        _ => &C07,
+    };
+    cell.get_or_init(|| all.iter().filter(|(p, _)| p == prop).map(|(_, s)| s.clone()).collect())
+}
+
+pub fn sig_matches(known: &str, sig: &str) -> bool {
+    known == sig || (known.ends_with('*') && sig.starts_with(&known[..known.len() - 1]))
+}
